@@ -9,7 +9,7 @@ import z3
 from .values import (SInt, SBool, SBytes, SStr, SSeq, SObj, SExc, SMethod, SClosure, Sym,
                      Opaque, is_sym, is_intlike, is_byteslike, is_strlike)
 
-from .seqs import Fold, SymDict, ElemKind
+from .seqs import Fold, SymDict, ElemKind, SAbstractClass, SMapSeq
 from .extmodels import SExt, ext_getattr, ext_str, ext_binop
 
 _MISSING = object()
@@ -153,6 +153,10 @@ class InterpMixin(object):
             return SMethod(obj, None, name)
         if isinstance(obj, (SymDict, SymDictKeys)):
             return SMethod(obj, None, name)
+        if isinstance(obj, set) and name == "issubset":
+            return SMethod(obj, None, name)
+        if type(obj).__name__ in ("SymSet", "SMapSeq") and name == "issubset":
+            return SMethod(obj, None, name)
         # raw python object / module / class
         if isinstance(obj, types.ModuleType) and (obj, name) in self.module_overlay:
             return self.module_overlay[(obj, name)]
@@ -247,6 +251,8 @@ class InterpMixin(object):
             return self.invoke_closure(fn, args, kwargs)
         if isinstance(fn, Fold):
             return fn.apply(self, args[0])
+        if isinstance(fn, SAbstractClass):
+            return fn.ctor(self, fn, args, kwargs)
         if isinstance(fn, types.MethodType):
             return self.call_function(fn.__func__, [fn.__self__] + list(args), kwargs)
         if isinstance(fn, (staticmethod, classmethod)):
@@ -987,6 +993,13 @@ class InterpMixin(object):
         rec(0, dict(fr.locals))
 
     def ev_ListComp(self, e, fr):
+        if len(e.generators) == 1 and not e.generators[0].ifs:
+            f2 = Frame_(fr.name, fr.globals, dict(fr.locals), fr.clsname, fr.spec, fr.fn)
+            it = self.eval(e.generators[0].iter, f2)
+            if isinstance(it, SSeq):
+                tgt = e.generators[0].target
+                src = ast.dump(e.elt) + "|" + ast.dump(tgt)
+                return SMapSeq(it, src, ast.unparse(e.elt))
         out = []
         self._comp(e, fr, lambda locs: out.append(
             self.eval(e.elt, Frame_(fr.name, fr.globals, locs, fr.clsname, fr.spec, fr.fn))))
